@@ -375,6 +375,7 @@ def check(col, prog, tier, profile, fixture=None):
                     col.violation("V8" + sfx, "%s|sequence" % fk(b), b.loc(), "tuple writer emits %s; expected the %d components in field order with exactly one ' ' between neighbours" % (seq, arity))
         elif sty.startswith(("std::vec::Vec<", "alloc::vec::Vec<")) or (sty.startswith("[") and sty.endswith("]") and ";" not in sty):
             conv = [m for m in util.methods_of(crate, "Writer") if m.key not in (wb.key, fl.key, wr.key, wc.key) and not util.self_recursive(m)]
+            conv += [m for m in crate.bodies if not m.is_closure and m.kind == "Fn" and m.container is None and m.vis != "pub" and not util.self_recursive(m)]
             I = util.analyser(conv)(b)
             key = "%s|separator-before-all-but-first" % fk(b)
             # delegation to another sequence impl (Vec -> slice): that impl is judged on its own
@@ -430,6 +431,95 @@ def check(col, prog, tier, profile, fixture=None):
                 col.violation("V8" + sfx, key, b.loc(), "sequence writer must emit one ' ' before every element except the first (and none after the last)")
 
 
+def _digits_cell_form(crate, b, bufl, wb, wc):
+    """the digit loop moved into a private helper that fills the caller's buffer through &mut (and may take the
+    digit-splitting step as a closure): (radix loop ok, why not, zero-and-tail ok), or None when there is no such loop"""
+    helpers = [m for m in crate.bodies if not m.is_closure and m.kind == "Fn" and m.container is None and m.vis != "pub" and not util.self_recursive(m)]
+    try:
+        I = util.analyser(helpers, features=("fncall", "mutlocal"))(b)
+    except Exception:
+        return None
+    owners, work = [], list(getattr(I, "inlined_subs", []))
+    while work:
+        x_ = work.pop()
+        owners.extend((x_, h_) for h_ in x_.loops)
+        work.extend(getattr(x_, "inlined_subs", []))
+    if len(owners) != 1:
+        return None
+    L, head = owners[0]
+    uid = L.uid(head)
+    backs = L.backedge_states.get(head, [])
+    ents = L.loop_entry.get(head, [])
+    if not backs or len(ents) != 1:
+        return None
+    ent = ents[0]
+    selfval = ("load", ("m0",), ("deref", ("param", 1, I.names.get(1))))
+    ok, why = True, ""
+    il = vl = None
+    for st in backs:
+        evs = st.event_list()
+        li = max(k for k, e in enumerate(evs) if e.kind == "loop")
+        stores = [e for e in evs[li:] if e.kind == "store"]
+        if len(stores) != 1 or stores[0].place[0] != "index" or util.cell_origin(evs, stores[0].place[1]) != ("local", bufl):
+            return False, "a round does not store exactly one digit into the digit buffer", False
+        idx, dig = stores[0].place[2], stores[0].val
+        if not (idx[0] == "bin" and idx[1] == "Sub" and idx[3] == mk_int(1) and idx[2][0] == "phi" and idx[2][1] == uid and st.env.get(idx[2][2]) == idx):
+            ok, why = False, "the index does not step down by one per digit (%s)" % tstr(idx)
+            continue
+        il = idx[2][2]
+        start = ent.get(il)
+        blen = str(b.locals[bufl]["ty"]).split(";")[-1].strip(" ]")
+        at_end = isinstance(start, tuple) and start and start[0] == "len" and (any(x == stores[0].place[1] for x in subterms(start)) or (isinstance(start[1], tuple) and start[1] and start[1][0] == "repeat" and str(start[1][2]) == blen))
+        if not at_end:
+            ok, why = False, "the index does not start at the end of the digit buffer (%s)" % tstr(start)
+        if not (dig[0] == "bin" and dig[1] == "Add" and mk_int(48) in (dig[2], dig[3])):
+            ok, why = False, "digit is %s" % tstr(dig)
+            continue
+        other = dig[2] if dig[3] == mk_int(48) else dig[3]
+        rem = other[3] if other[0] == "cast" else other
+        if not (rem[0] == "bin" and rem[1] == "Rem" and rem[3] == mk_int(10) and rem[2][0] == "phi" and rem[2][1] == uid):
+            ok, why = False, "digit is %s" % tstr(dig)
+            continue
+        vl = rem[2][2]
+        pv = ("phi", uid, vl)
+        if st.env.get(vl) != ("bin", "Div", pv, mk_int(10)) or ent.get(vl) != selfval:
+            ok, why = False, "the value is not divided by ten per digit, starting from the number itself"
+
+        def unref(v):
+            return v[1][1] if isinstance(v, tuple) and v and v[0] == "ref" and v[1][0] == "constval" else v
+
+        cont = False
+        for f in st.facts:
+            t = f[1]
+            if f[0] == "eq" and isinstance(t, tuple) and t and t[0] == "bin" and t[2] == pv and t[3] == mk_int(0) and ((t[1] == "Ne" and f[2] == 1) or (t[1] == "Eq" and f[2] == 0)):
+                cont = True
+            if f[0] == "ne" and t == pv and f[2] == 0:
+                cont = True
+            if f[0] == "eq" and isinstance(t, tuple) and t and t[0] == "call" and str(t[1]).endswith(("PartialEq::ne", "PartialEq::eq")):
+                a_ = [unref(y) for y in t[2] if not (isinstance(y, tuple) and y and y[0] == "mem")]
+                z_ = [y for y in a_ if isinstance(y, tuple) and y and ((y[0] == "assoc" and y[2] == "ZERO") or y == mk_int(0))]
+                if len(a_) == 2 and len(z_) == 1 and pv in a_ and (bool(f[2]) == str(t[1]).endswith("::ne")):
+                    cont = True
+        if not cont:
+            ok, why = False, "the loop does not continue exactly while the value is non-zero"
+    # zero case and emitted tail
+    okz, oke, ntail = False, True, 0
+    for st in I.final_states:
+        evs = st.event_list()
+        zero = any(f[0] == "eq" and f[1] == selfval and f[2] == 0 and not isinstance(f[2], bool) for f in st.facts) or any(f[0] == "eq" and f[2] == 1 and isinstance(f[1], tuple) and f[1][0] == "bin" and f[1][1] == "Eq" and f[1][2] == selfval and f[1][3] == mk_int(0) for f in st.facts)
+        tails = [e for e in evs if _is(e, wb) and not e.extra.get("in")]
+        if zero and not tails:
+            okz = okz or any(_is(e, wc) and e.args[1] == mk_int(48) for e in evs)
+            continue
+        if len(tails) != 1:
+            oke = False
+            continue
+        ntail += 1
+        a = tails[0].args[1]
+        oke = oke and il is not None and a[0] == "ref" and a[1][0] == "range" and a[1][1] == ("local", bufl) and a[1][2][0] == "agg" and a[1][2][1][1].endswith("RangeFrom") and a[1][2][2][0] == ("phi", uid, il)
+    return ok and il is not None and vl is not None, why, bool(oke and ntail and okz)
+
+
 def _single_byte_append(b, inl, BUF, END, cap):
     """None when every path of b that touches the buffer is: room for one byte entailed (end + 1 <= capacity, after a
     possible flush), exactly one store buf[end_now] := byte, then end := end_now + 1; else the reason"""
@@ -468,7 +558,13 @@ def _slice_iter_exhausted(st, pre):
     """before the loop, next() on a std::slice::Iter local returned None and the loop runs over that same
     iterator (moved through into_iter): slice iterators are fused, so no round of the loop is feasible"""
     for e in pre:
-        if not (e.kind == "call" and e.extra.get("name") == "next" and "slice::Iter<" in str(e.callee)):
+        if not (e.kind == "call" and e.extra.get("name") == "next"):
+            continue
+        # a slice iterator by its type, or (inside an inlined helper generic over the iterator) by the value it was
+        # given: the result of <[T]>::iter
+        av = (e.extra.get("argvals") or [None])[0]
+        by_value = isinstance(av, tuple) and av and av[0] == "call" and str(av[1]).startswith(("core::slice::<impl [T]>::iter", "std::slice::<impl [T]>::iter")) and str(av[1]).rsplit("::", 1)[-1] == "iter"
+        if not ("slice::Iter<" in str(e.callee) or by_value):
             continue
         a = e.args[0]
         if not (a[0] == "ref" and a[1][0] == "local"):
@@ -532,6 +628,21 @@ def _digits(col, crate, base10, wb, wc, wr, sfx):
                 continue
             bufl = bl[0]
             backs = [s for l in I.backedge_states.values() for s in l]
+            if not backs:
+                alt = _digits_cell_form(crate, b, bufl, wb, wc)
+                if alt is not None:
+                    okl_, whyl_, okt_ = alt
+                    key = "%s|radix-10-loop" % fk(b)
+                    if okl_:
+                        col.ok("V6" + sfx, b.loc(), key, "digit loop in a private helper: index' = index - 1 from the end of the buffer, digit = value % 10 + '0', value' = value / 10, while value != 0")
+                    else:
+                        col.violation("V6" + sfx, key, b.loc(), "the digit loop of %s is not the radix-10 loop from the end of the buffer (%s)" % (ty, whyl_))
+                    key = "%s|zero-and-tail" % fk(b)
+                    if okt_:
+                        col.ok("V6" + sfx, b.loc(), key, "0 -> '0'; otherwise emits buf[index..]")
+                    else:
+                        col.violation("V6" + sfx, key, b.loc(), "%s writer must render zero as '0' (special case, or a digit loop that runs at least once) and otherwise emit the tail buf[index..]" % ty)
+                    continue
             okloop = bool(backs)
             why = "no digit loop"
             index_local = None
